@@ -312,7 +312,10 @@ func runLazy(t *rapid.T, w *rep.Worker) {
 				w.Violate(rep.PanicSig(op, p, debug.Stack()), fmt.Sprint(p))
 			}
 		}()
+		opName := op
+		w.WatchBegin(&opName)
 		f()
+		w.WatchEnd()
 		return false
 	}
 	// pristine observation on an untouched private copy of the frame
